@@ -197,7 +197,8 @@ func (p *Prompt) SecondaryPrint() {
 
 // MultilineColumnPrint prints the multiline editor column status indicator.
 // It either prints a default, numbered or user-defined column.
-func (p *Prompt) MultilineColumnPrint() {
+// It returns the number of rows that the cursor has been moved down.
+func (p *Prompt) MultilineColumnPrint() (rows int) {
 	numbered := p.opts.GetBool("multiline-column-numbered")
 	custom := p.opts.GetString("multiline-column-custom")
 	defaultCol := p.opts.GetBool("multiline-column")
@@ -211,6 +212,8 @@ func (p *Prompt) MultilineColumnPrint() {
 
 		fmt.Print(column)
 
+		rows = p.line.Lines()
+
 	case len(custom) > 0:
 		column := ""
 		for pos := 0; pos < p.line.Lines(); pos++ {
@@ -219,6 +222,8 @@ func (p *Prompt) MultilineColumnPrint() {
 
 		fmt.Print(column)
 
+		rows = p.line.Lines()
+
 	case defaultCol:
 		column := ""
 		for pos := 0; pos < p.line.Lines(); pos++ {
@@ -226,7 +231,11 @@ func (p *Prompt) MultilineColumnPrint() {
 		}
 
 		fmt.Print(column)
+
+		rows = p.line.Lines()
 	}
+
+	return rows
 }
 
 // RightPrint prints the right-sided prompt strings, which might be either
